@@ -880,7 +880,13 @@ type CaseItem struct {
 	Last  []Comment
 }
 
-func (c *CaseItem) Pos() Pos { return c.Patterns[0].Pos() }
+func (c *CaseItem) Pos() Pos {
+	if len(c.Patterns) == 0 {
+		// Only possible when [RecoverErrors] stood in for missing patterns.
+		return recoveredPos
+	}
+	return c.Patterns[0].Pos()
+}
 func (c *CaseItem) End() Pos {
 	if c.OpPos.IsValid() {
 		return posAddCol(c.OpPos, len(c.Op.String()))
